@@ -44,6 +44,9 @@ def schedules(H, rng, n_random):
         out.append((nm + '-UPDUNK', [(g, 'UPDUNK')] * 3))
     out.append(('burst', [(0.0, 'KA')] * 4 + [(0.0, 'UPD')] * 4 + [(H - e, 'KA')]))
     out.append(('long-run', [(H / 2.0, 'KA' if i % 2 else 'UPD') for i in range(200)]))
+    if H in (3, 9, 30):
+        # more than a thousand UPDATEs, each arriving 0.6 H after the one before: every single one has to restart the timer
+        out.append(('very-long-run', [(0.6 * H, 'UPD' if i % 7 else 'UPDUNK') for i in range(1100)]))
     out.append(('rr-only', [(H / 2.0, 'RR')] * 5))
     out.append(('rr-then-ka', [(H / 2.0, 'RR'), (H / 2.0 - e, 'KA'), (H / 2.0, 'RR'), (H / 2.0, 'RR')]))
     out.append(('rest-updates', [(H / 3.0, 'REST'), (H / 4.0, 'KA'), (H / 3.0, 'REST'), (H - e, 'UPD'), (H / 5.0, 'REST')]))
